@@ -51,10 +51,10 @@ class DensityEstimator(ABC):
         # switch variables to the centre and width of the interval
         c = 0.5 * (lwr + upr)
         w = upr - lwr
-        # tied sample values can give an interval of zero width, from which the
-        # search below cannot move: use the width the peak density implies instead
-        if not w > 0.0:
-            w = fraction / self(self.mode)
+        # tied sample values, or a fraction which holds only a few samples, can give
+        # an interval of zero or negligible width from which the search below cannot
+        # move: no interval holding 'fraction' is narrower than fraction / peak density
+        w = max(w, fraction / self(self.mode))
         # the search below only converges to the highest-density interval if it
         # starts from an interval which contains the mode
         if not lwr < self.mode < upr:
